@@ -182,7 +182,7 @@ func TestCheck(t *testing.T) {
 	r := mon.New("C01")
 	defer r.Flush()
 	if os.Getenv("VERIF_REPLAY") == "" {
-		r.Watchdog(60 * time.Second)
+		r.Watchdog(20 * time.Second)
 	}
 	var rp replay
 	if mon.ReplayCase(&rp) {
